@@ -81,6 +81,31 @@ CHECKS = {
         text='Trees with arbitrary interleavings of text/comment/CDATA/PI/doctype/declaration/element nodes (API-built and parsed, HTML with iframes, XML) are queried with :-soup-contains, :-soup-contains-own, :contains (FutureWarning required) and :empty using needles that span node boundaries, occur only in non-text nodes or inside iframes, are empty or contain quotes/backslashes/newlines.',
         note='Trusted: the reference text model (is_text = NavigableString that is not Comment/CData/PI/Declaration/Doctype), the respeller for needle quoting.',
         ref='DESIGN.md 3/C19'),
+    'C04': dict(
+        technique='stateful (rule-based state machine) property-based testing with history invariants: select vs per-element match, pristine-copy differential, no-mutation snapshot',
+        text='Hypothesis RuleBasedStateMachine over one generated form document: rules issue select/iselect/select_one/match/filter/closest calls with memoising selectors (:lang via meta, :default, :indeterminate, :dir) on drawn targets; after every step the answer must equal per-element match, the answer on a pristine copy with a purged cache, filter(tag) must equal filter(list) in any order, and the tree snapshot must be unchanged.',
+        note='Trusted: soupsieve answers are compared with each other across histories (no reference model here; C13/C17 supply those); snapshot = serialisation + attribute reprs + node identities.',
+        ref='DESIGN.md 3/C04'),
+    'C14': dict(
+        technique='schedule-owning concurrency testing: deterministic thread scheduler over line/opcode yield points, exhaustive single pre-emption + Hypothesis-drawn burst/PCT schedules, linearizability-style oracle (each outcome equals its solo outcome)',
+        text='Real threads, one running at a time, yield points at every traced line (thorough: opcode in css_parser.py) inside soupsieve. Every single pre-emption of every ordered pair of compile operations from the pool is enumerated; mixed compile/purge/select/match/filter/closest workloads on 2-4 threads run under drawn burst and priority schedules. Outcomes must equal solo outcomes; no poisoned cache entry may remain.',
+        note='Trusted: C-level atomicity of lru_cache/re; only interleavings at traced boundaries are explored; >= 2 pre-emptions are sampled.',
+        ref='DESIGN.md 3/C14'),
+    'C15': dict(
+        technique='property-based testing of value semantics (mutation attacks, equality/hash relation, pickle/copy round trips) plus a stateful rule-based machine over compile/purge histories against fresh-parse references',
+        text='Every object reachable from a compiled selector is attacked through its public interface and must stay equal to a fresh parse; == must coincide with equality of (pattern, namespaces, custom, flags) on generated near-collision pairs; pickle/copy/deepcopy must round-trip; a state machine interleaves compile(key), compile_many(up to 700 patterns), purge and compile(compiled[, extra]) and checks transparency and the cache bound.',
+        note='Trusted: cache size is observed through functools.lru_cache.cache_info() of the cached compile function; private attributes are not attacked.',
+        ref='DESIGN.md 3/C15'),
+    'C16': dict(
+        technique='generated-program testing: enumerated/drawn import-statement sequences, each run in a fresh interpreter, differential against the soupsieve-first reference program',
+        text='All import sequences up to length 2 (quick) / 3 (thorough) over 12 import forms of bs4, soupsieve and their submodules, plus drawn longer ones, run as python -c programs; each must exit 0, print exactly the reference JSON line, agree between bs4.select and soupsieve.select, leave stderr empty and record no warning from the soupsieve package.',
+        note='Trusted: /venv/bin/python with PYTHONPATH pointing at the repository under test.',
+        ref='DESIGN.md 3/C16'),
+    'C20': dict(
+        technique='bounded-exhaustive sweep of (pattern, offset) pairs + property-based testing of parser-raised errors, DEBUG differential and pretty-printer round trip under a traced step budget',
+        text='Every pattern over 7 symbols (incl. three line-break styles) up to length 5/7 x every offset is checked against line/column/context by definition; mutated multi-line selectors must raise errors whose location matches the reported position; DEBUG must not change structure or selection; pretty() must finish within a step budget counted by sys.settrace and equal repr up to whitespace.',
+        note='Trusted: the line/column oracle (self-evident), stdout capture; termination is judged by a step count, never by a clock.',
+        ref='DESIGN.md 3/C20'),
 }
 
 NOT_APPLICABLE = []
